@@ -496,6 +496,76 @@ def run(ctx):
             prec = not ({"BREEZE_AWAY", "BREEZELESS"} & ids(present)) and "BREEZE_CONTROL" in ids(present) and {"BREEZE_AWAY", "BREEZELESS"} <= ids(absent)
     ctx.ob("C16.e", us.qual, prec, "BREEZE_CONTROL is consulted first; BREEZE_AWAY / BREEZELESS only when it is absent", func=us.qual, file=us.module.rel,
            construct="breeze precedence", fail="breeze precedence changed: a legacy id can override BREEZE_CONTROL")
+    # advertised ids: a property id is added to the supported set because the device advertised the capability with the *same* wire id
+    # (capability record id -> reader name -> CapabilitiesResponse property -> PropertyId): a swapped reader name makes the client query and
+    # write an id the device never advertised
+    capc = prog.cls(f"{CMD}.CapabilitiesResponse")
+    cap_ids = prog.cls(f"{CMD}.CapabilityId")
+    readers = {}
+    for f_ in with_helpers(prog, ctx.fn(f"{CMD}.CapabilitiesResponse._parse_capabilities")):
+        for n in ast.walk(f_.node):
+            if isinstance(n, ast.Dict):
+                for k, v in zip(n.keys, n.values):
+                    if isinstance(k, ast.Attribute) and isinstance(k.value, ast.Name) and k.value.id == "CapabilityId":
+                        for c in (v.elts if isinstance(v, ast.List) else [v]):
+                            if isinstance(c, ast.Call) and c.args and isinstance(c.args[0], ast.Constant) and isinstance(c.args[0].value, str):
+                                readers.setdefault(c.args[0].value, set()).add(k.attr)
+    cap_vals = {m: prog.fold_or_none(cap_ids.attrs.get(m), cap_ids.module, cap_ids) for m in prog.enum_members(cap_ids)}
+    pid_vals = {m: prog.fold_or_none(pid.attrs.get(m), pid.module, pid) for m in prog.enum_members(pid)}
+    ucap = ctx.fn(f"{AC}._update_capabilities")
+    ucs = summarize(prog, ucap)
+    resp_p = ucap.params[1]
+    for n in ast.walk(ucap.node):
+        if isinstance(n, ast.Expr) and isinstance(n.value, ast.Call) and isinstance(n.value.func, ast.Attribute) and n.value.func.attr == "add" \
+                and is_self_attr(n.value.func.value, "_supported_properties") and n.value.args and n in ucs.ta.env_at:
+            idn = enum_name(ucs.ta.terms_at.get(n.value.args[0], ("top",)))
+            if idn is None:
+                continue
+            gates = [strip(a) for a in atoms(ucs.ta.env_at[n].pc)]
+            keys_ = []
+            for a in gates:
+                if a[0] == "attr" and a[1] == ("param", resp_p):
+                    g_ = capc.methods.get(a[2])
+                    if g_ is not None and g_.kind == "property":
+                        for x in subterms(summarize(prog, g_).return_term()):
+                            if meth_is(x, "get") and x[2] and is_const(x[2][0]) and isinstance(x[2][0][1], str):
+                                keys_.append(x[2][0][1])
+            srcs = set().union(*[readers.get(k_, set()) for k_ in keys_]) if keys_ else set()
+            if not srcs:
+                continue          # (not advertised by a record of its own: rate levels, iECO)
+            ctx.count("advertised_ids")
+            same = any(cap_vals.get(m) is not None and cap_vals.get(m) == pid_vals.get(idn) for m in srcs)
+            ctx.ob("C16.a", ucap.qual, same, f"PropertyId.{idn} is supported when the capability record with the same id was advertised ({sorted(srcs)})", func=ucap.qual,
+                   file=ucap.module.rel, node=n, detail={"capability_ids": {m: cap_vals.get(m) for m in sorted(srcs)}, "property_id": pid_vals.get(idn)},
+                   fail=f"PropertyId.{idn} (0x{pid_vals.get(idn) or 0:04X}) is marked supported from capability record(s) {sorted(srcs)} "
+                        f"({', '.join('0x%04X' % (cap_vals.get(m) or 0) for m in sorted(srcs))}): the client queries and writes an id the device did not advertise")
+    ctx.require_min("advertised_ids", 4)
+    # read-back: a property the response carries - whatever its value, also False / 0 / OFF - replaces the backing attribute; one it does
+    # not carry leaves it alone (the gate is `get_property(id) is not None`, not the value's truth)
+    final_env = None
+    for _pc, _t, _n, rst in uss.returns:
+        final_env = rst.env
+    readback = {k: v[0][0] for k, v in pmap.items() if len(v[0]) == 1 and not k.startswith("BREEZE")}
+    readback["SELF_CLEAN"] = "_self_clean_active"
+    for idn, attr_ in sorted(readback.items()):
+        v_ = final_env.get(f"{us.params[0]}.{attr_}") if final_env else None
+        gp = None
+        for x in subterms(v_) if v_ is not None else ():
+            if meth_is(strip(x), "get_property") and strip(x)[2] and enum_name(strip(x)[2][0]) == idn:
+                gp = x
+        ok_rb = False
+        if gp is not None:
+            present = strip(simplify(v_, [("cmp", "is not", gp, ("const", None))]))
+            absent = strip(simplify(v_, [("cmp", "is", gp, ("const", None))]))
+
+            def gated_on(t, g):
+                return any(y[0] == "ite" and any(z == g for z in subterms(y[1])) for y in subterms(t))
+            ok_rb = not gated_on(present, gp) and any(z == gp for z in subterms(present)) and not any(z == gp for z in subterms(absent))
+        ctx.count("readback_properties")
+        ctx.ob("C16.e", us.qual, ok_rb, f"a reported {idn} - any value - is stored in self.{attr_}; an absent one leaves it alone", func=us.qual, file=us.module.rel,
+               construct=f"read-back of {idn}", detail={"stored": show(v_)[:160] if v_ else None},
+               fail=f"self.{attr_} does not take every reported value of {idn} (the store is gated by the value's truth, or missing): a change to False / 0 / OFF is never read back")
+    ctx.require_min("readback_properties", 5)
     rf = ctx.fn(f"{AC}.refresh")
     rfs = summarize(prog, rf)
     q_ok = any(isinstance(n, ast.Call) and call_is(t, f"{CMD}.GetPropertiesCommand") and strip(t[2][0]) == ("attr", ("param", rf.params[0]), "_supported_properties")
